@@ -678,6 +678,15 @@ func (tx *Tx) put(bucket string, key, value []byte, ttl uint32, flag uint16, tim
 		return ErrKeyEmpty
 	}
 
+	// The entry outlives the call: it is written at Commit and then kept by
+	// the in-memory indexes. Keep copies, so that the caller may reuse its key
+	// and value buffers as soon as the call returns (a reused buffer changed
+	// the keys and values the indexes served, and Get no longer found the key).
+	key = append([]byte(nil), key...)
+	if value != nil {
+		value = append([]byte{}, value...)
+	}
+
 	tx.pendingWrites = append(tx.pendingWrites, &Entry{
 		Key:   key,
 		Value: value,
